@@ -245,7 +245,7 @@ func hasVar(x interface{}) bool {
 // corpus: the repository's own table plus the witnesses of DESIGN.md §4.
 func matchCorpus() []*matchCase {
 	var acc []*matchCase
-	if js, err := os.ReadFile("/repo/match/match_test.json"); err == nil {
+	if js, err := os.ReadFile(repoPath("match/match_test.json")); err == nil {
 		var rows []map[string]interface{}
 		if json.Unmarshal(js, &rows) == nil {
 			for _, r := range rows {
@@ -291,6 +291,11 @@ func matchCorpus() []*matchCase {
 		lit(`{"a":"??o"}`, `{}`, `{}`),
 		lit(`["?x","?y"]`, `{"a":1}`, `{}`),
 		lit(`{"?k":1,"a":2}`, `{"a":2,"b":1}`, `{}`),
+		// D6: a bound value that is itself a variable name (stack overflow before the repair)
+		lit(`{"b":"?x"}`, `{"b":1}`, `{"?x":"?x"}`),
+		lit(`{"b":"?x"}`, `{"b":"?x"}`, `{"?x":"?x"}`),
+		lit(`{"b":"?x"}`, `{"b":"?y"}`, `{"?x":"?y","?y":"?x"}`),
+		lit(`{"b":["?x"]}`, `{"b":["?x",2]}`, `{"?x":"?x"}`),
 	)
 	return acc
 }
@@ -523,4 +528,14 @@ func matchConcComponent(g *G, n int, opts map[string]string) *Out {
 		o.add(term, canon(c.P)+canon(c.F)+canon(c.Bs), countMaps(c.P)+countMaps(c.F) > 0, c)
 	}
 	return o
+}
+
+// repoPath resolves a path inside the tree under test (the directory the
+// harness module's replace directive points to; VERIF_REPO or /repo).
+func repoPath(rel string) string {
+	root := os.Getenv("VERIF_REPO")
+	if root == "" {
+		root = "/repo"
+	}
+	return root + "/" + rel
 }
